@@ -93,12 +93,12 @@ def gen_abstract(rng, opts=None):
             items.append(("mem", rng.choice(ST_OPS), reg(), reg(), rng.choice([0, 4, -4, 2047, -2048, rng.randrange(-2048, 2048)]), rng.random() < 0.6))
         elif r < 0.57:
             if labels and rng.random() < 0.7:
-                items.append(("b", rng.choice(B_OPS), reg(), reg(), ("label", rng.choice(labels), rng.choice([None, None, 0, 4, 8, 0x10]))))
+                items.append(("b", rng.choice(B_OPS), reg(), reg(), ("label", rng.choice(labels), rng.choice([None, None, 0, 4, 8, 0x10, 2, 6, 1, 3]))))
             else:
                 items.append(("b", rng.choice(B_OPS), reg(), reg(), ("num", rng.choice([0, 4, 8, -4, -8, 4094, -4096, 2 * rng.randrange(-2048, 2048)]))))
         elif r < 0.63:
             if labels and rng.random() < 0.7:
-                items.append(("jal", reg(), ("label", rng.choice(labels), rng.choice([None, None, 0, 4, 0x20]))))
+                items.append(("jal", reg(), ("label", rng.choice(labels), rng.choice([None, None, 0, 4, 0x20, 2, 1, 5]))))
             else:
                 items.append(("jal", reg(), ("num", rng.choice([0, 4, 8, 16, 4 * rng.randrange(0, 64), 2 * rng.randrange(0, 2**19)]))))
         elif r < 0.68:
@@ -502,6 +502,12 @@ def check_valid(c, prop, what=("listing", "data")):
     try:
         toks, mem, var, lab = denote(items, decls)
     except KeyError:
+        return fails
+    if any(it[0] in ("b", "jal") and it[-1][0] == "label" and (it[-1][2] or 0) % 2 for it in items):
+        # label + odd offset denotes no encodable displacement: the assembler must reject it with the parity error
+        out = c.impl_out[0]
+        if not out.startswith("PE ParserOddImmediateException"):
+            fails.append(Failure("oracle", prop, f"label plus an odd offset was not rejected as an odd immediate: {out[:100]} -- text {c.meta['text']!r}", "asm:odd-label-offset-accepted"))
         return fails
     out = c.impl_out[0]
     reserved = [it for it in items if it[0] == "label" and it[1] in ("nop", "ecall", "ebreak")]
